@@ -97,8 +97,23 @@ func c12Gen(seed int64, i int) c12Stream {
 
 var errCallback = errors.New("verif: injected callback failure")
 
-func chunkWriteDelim(w *os.File, data []byte, delim byte, r *vlib.Rng, mode int) {
+func chunkWriteDelim(w *os.File, data []byte, delim byte, r *vlib.Rng, mode int, longPause bool) {
+	paused := false
 	for len(data) > 0 {
+		if longPause && !paused && len(data) > 2 {
+			// a writer that stalls in the middle of a record for longer than
+			// any plausible internal poll interval
+			cut := 1 + r.Intn(len(data)-1)
+			if data[cut-1] != delim {
+				if _, err := w.Write(data[:cut]); err != nil {
+					return
+				}
+				data = data[cut:]
+				paused = true
+				time.Sleep(400 * time.Millisecond)
+				continue
+			}
+		}
 		n := len(data)
 		switch mode {
 		case 1:
@@ -165,7 +180,11 @@ func childC12(args []string) {
 		}
 		r := vlib.NewRng(seed, "C12w/"+strconv.Itoa(i))
 		wdone := make(chan struct{})
-		go func() { chunkWriteDelim(w, stream, s.Delim, r, s.Mode); w.Close(); close(wdone) }()
+		longPause := i%8 == 5
+		if longPause {
+			out.add("streams_with_a_400ms_pause_inside_a_record", 1)
+		}
+		go func() { chunkWriteDelim(w, stream, s.Delim, r, s.Mode, longPause); w.Close(); close(wdone) }()
 		var ierr error
 		select {
 		case ierr = <-done:
@@ -244,6 +263,7 @@ func checkC12(r *vlib.Run) int {
 	r.Set("records", res.stats["records"])
 	r.Set("bytes_through_fifo", res.stats["bytes"])
 	r.Set("callback_error_injections", res.stats["error_injections"])
+	r.Set("streams_with_a_400ms_pause_inside_a_record", res.stats["streams_with_a_400ms_pause_inside_a_record"])
 	r.Set("classes", res.distinct.Keys())
 	r.Set("build", "-race")
 	r.Require(res.stats["streams"] >= n*95/100, "too few streams completed")
